@@ -30,37 +30,41 @@ def takeDigits : List Byte → List Byte × List Byte
   | [] => ([], [])
   | c :: r => if isDigit c then let p := takeDigits r; (c :: p.1, p.2) else ([], c :: r)
 
+/-- optional sign: (collected, rest) -/
+def optSign (r : List Byte) : List Byte × List Byte :=
+  match r with
+  | 43 :: t => ([43], t)
+  | 45 :: t => ([45], t)
+  | _ => ([], r)
+
+/-- optional decimal point: (collected, rest) -/
+def optDot (r : List Byte) : List Byte × List Byte :=
+  match r with
+  | 46 :: t => ([46], t)
+  | _ => ([], r)
+
 /-- The decimal denoted by a text of the shape `sign? digits* ('.' digits*)? ([eE] sign? digits+)?` with at least
     one mantissa digit — exactly the texts `strtod` converts *completely* (libstdc++ fails the extraction
     otherwise: `__sanity == __s || *__sanity != '\0'`).  `none` = the extraction fails with value 0. -/
 def parseFloatText (t : List Byte) : Option Decimal :=
-  let (neg, t1) : Bool × List Byte :=
-    match t with
-    | 45 :: r => (true, r)
-    | 43 :: r => (false, r)
-    | _ => (false, t)
-  let (ip, t2) := takeDigits t1
-  let (fp, t3) : List Byte × List Byte :=
-    match t2 with
-    | 46 :: r => takeDigits r
-    | _ => ([], t2)
-  if ip.isEmpty && fp.isEmpty then none
+  let sg := optSign t
+  let neg := sg.1 == [45]
+  let ip := takeDigits sg.2
+  let dot := optDot ip.2
+  let fp : List Byte × List Byte := if dot.1.isEmpty then ([], ip.2) else takeDigits dot.2
+  if ip.1.isEmpty && fp.1.isEmpty then none
   else
-    let mant := digitsVal (ip ++ fp) 0
-    match t3 with
-    | [] => some ⟨neg, mant, - (fp.length : Int)⟩
+    let mant := digitsVal (ip.1 ++ fp.1) 0
+    match fp.2 with
+    | [] => some ⟨neg, mant, - (fp.1.length : Int)⟩
     | c :: r =>
       if c == 101 || c == 69 then
-        let (eneg, r1) : Bool × List Byte :=
-          match r with
-          | 45 :: r' => (true, r')
-          | 43 :: r' => (false, r')
-          | _ => (false, r)
-        let (ed, r2) := takeDigits r1
-        if ed.isEmpty || !r2.isEmpty then none
+        let esg := optSign r
+        let ed := takeDigits esg.2
+        if ed.1.isEmpty || !ed.2.isEmpty then none
         else
-          let e : Int := digitsVal ed 0
-          some ⟨neg, mant, (if eneg then -e else e) - (fp.length : Int)⟩
+          let e : Int := digitsVal ed.1 0
+          some ⟨neg, mant, (if esg.1 == [45] then -e else e) - (fp.1.length : Int)⟩
       else none
 
 /-- platform conversions (the parameter of the REAL/NUMBER scanners) -/
